@@ -1,5 +1,5 @@
 """C04 -- causality: Volterra structure, never negative (DESIGN.md E3)."""
-from .. import causal, indexing, kernels, meshrules
+from .. import causal, indexing, kernels, meshrules, panels, effects
 from ..cas import run_tasks
 
 LEVEL = 'other'
@@ -30,6 +30,8 @@ def run(prog, report, tier):
     causal.run_prefilters(prog, report)
     indexing.check_bilform_matrix(prog, report)
     meshrules.check_element_geometry(prog, report)
+    panels.check_exact_splitter(prog, report)
+    effects.check_cache(prog, report)
     run_tasks(report, [(kernels.cert_K1, (prog.repo, )),
                        (kernels.cert_K2_fourterm, (prog.repo, )),
                        (kernels.cert_fourterm_exact, (prog.repo, ))])
